@@ -74,6 +74,7 @@ class StandardQTomographyBasedWeightedProbabilityBasedSquaredError(
     def _calc_extend_weight_matrix(self) -> None:
         # if weight_matrices is None, not calculate.
         if self.weight_matrices is None:
+            self._extend_weight_matrix = None
             return
 
         # calc the extend weight matrix.
@@ -88,6 +89,17 @@ class StandardQTomographyBasedWeightedProbabilityBasedSquaredError(
             block_matrix.append(row)
 
         self._extend_weight_matrix = np.block(block_matrix)
+
+    def set_weight_matrices(self, weight_matrices: List[np.ndarray]) -> None:
+        """sets weight matrices and rebuilds the extend weight matrix used by ``value`` and ``gradient``.
+
+        Parameters
+        ----------
+        weight_matrices : List[np.ndarray]
+            weight matrices.
+        """
+        super().set_weight_matrices(weight_matrices)
+        self._calc_extend_weight_matrix()
 
     def set_prob_dists_q(self, prob_dists_q: List[np.ndarray]) -> None:
         """sets vectors of ``q``, by default None.
